@@ -239,6 +239,14 @@ func c16Nontrivial(s *spec.Spec) bool {
 // a failure of the toolchain itself (killed, out of memory, missing binary).
 func looksLikeLanguageError(v gen.Variant, diag string) bool {
 	if v.IsGo() {
+		// a diagnostic about the generated file - but not one about the
+		// toolchain's own files (build cache trimmed under a running build,
+		// disk full): "could not import fmt (open .../gocache/...: no such file"
+		for _, k := range []string{"no such file or directory", "no space left", "permission denied", "input/output error", "cannot allocate memory", "signal: killed", "gocache"} {
+			if strings.Contains(diag, k) {
+				return false
+			}
+		}
 		return strings.Contains(diag, "main.go:")
 	}
 	for _, k := range []string{"SyntaxError", "ReferenceError", "TypeError", "ERR_INVALID_TYPESCRIPT_SYNTAX", "RangeError"} {
